@@ -39,6 +39,9 @@ type scriptConn struct {
 	// readDeadline: a read deadline is armed; timeouts counts how often a Read timed out
 	readDeadline bool
 	timeouts     int
+	// write fault: the faultAt-th Write (0-based; -1: never) accepts faultN bytes and reports a timeout
+	faultAt, faultN int
+	nwrites         int
 }
 
 type fakeAddr struct{}
@@ -75,6 +78,15 @@ func (c *scriptConn) Write(p []byte) (int, error) {
 	verifrt.Yield("conn.Write")
 	if c.closed {
 		return 0, errors.New("use of closed network connection")
+	}
+	c.nwrites++
+	if c.faultAt >= 0 && c.nwrites-1 == c.faultAt {
+		n := c.faultN
+		if n > len(p) {
+			n = len(p)
+		}
+		c.written = append(c.written, append([]byte{}, p[:n]...))
+		return n, timeoutError{}
 	}
 	c.written = append(c.written, append([]byte{}, p...))
 	return len(p), nil
@@ -136,6 +148,13 @@ func (p ofParser) Parse(b []byte) (util.Message, error) {
 	}
 	return of.Parse(b)
 }
+
+// unencodable is a message whose encoder reports an error (as a vendor message with a broken payload does).
+type unencodable struct{}
+
+func (unencodable) Len() uint16                    { return 8 }
+func (unencodable) MarshalBinary() ([]byte, error) { return nil, errors.New("this message cannot be encoded") }
+func (unencodable) UnmarshalBinary([]byte) error   { return nil }
 
 // streamDigest maps values travelling through the stream's channels to numbers (state key).
 func streamDigest(v any) uint64 {
@@ -240,6 +259,15 @@ type streamScenario struct {
 	// the kind recurs in its body (a keep-alive built once). AsBuffer: the objects are *util.Buffer
 	// values holding the pre-encoded bytes (the stream accepts any util.Message).
 	Reuse    bool  `json:"reuse_objects,omitempty"`
+	// WriteFault [k, n]: the k-th Write call (0-based) accepts n bytes and returns a timeout error.
+	// Unencodable: message kind index -1 in a producer body is a message whose MarshalBinary fails.
+	WriteFault []int `json:"write_fault,omitempty"`
+	// TwoStreams: a second MessageStream on a connection of its own (on which nothing ever arrives)
+	// lives in the same process; nothing may reach its consumer
+	TwoStreams bool `json:"two_streams,omitempty"`
+	// ZeroReads: before every chunk (and once more behind the last) a Read returns (0, nil), which
+	// io.Reader allows and callers must treat as "nothing happened"
+	ZeroReads bool `json:"zero_reads,omitempty"`
 	// ZeroXid: every submitted message carries transaction id 0 (asynchronous replies and raw frames do)
 	ZeroXid bool `json:"zero_xid,omitempty"`
 	AsBuffer bool  `json:"as_buffer,omitempty"`
@@ -262,6 +290,7 @@ type streamRun struct {
 	submitted [][][]byte // per producer, the encodings submitted in order
 	prodDone  int
 	parsed    [][]byte // the frames the stream handed to its parser, in order
+	gotOther  int      // deliveries on the second stream (TwoStreams)
 }
 
 func policyPrio(policy string) func(name string) int {
@@ -327,7 +356,17 @@ func newStreamExplorer(sc streamScenario, alphabet []streamFrame, outAlphabet []
 		if total > prev {
 			chunks = append(chunks, append([]byte{}, run.stream[prev:total]...))
 		}
-		run.conn = &scriptConn{chunks: chunks}
+		if sc.ZeroReads {
+			var z [][]byte
+			for _, c := range chunks {
+				z = append(z, []byte{}, c)
+			}
+			chunks = append(z, []byte{})
+		}
+		run.conn = &scriptConn{chunks: chunks, faultAt: -1}
+		if sc.WriteFault != nil {
+			run.conn.faultAt, run.conn.faultN = sc.WriteFault[0], sc.WriteFault[1]
+		}
 		if sc.FailAfter >= 0 {
 			run.conn.failErr = errors.New(sc.FailErr)
 			if sc.FailErr == "EOF" {
@@ -341,6 +380,17 @@ func newStreamExplorer(sc streamScenario, alphabet []streamFrame, outAlphabet []
 	}
 	e.Body = func() {
 		run.parsed = nil
+		run.gotOther = 0
+		if sc.TwoStreams {
+			other := util.NewMessageStream(&scriptConn{faultAt: -1}, ofParser{})
+			verifrt.GoNamed("consumer-of-the-other-connection", func() {
+				for {
+					verifrt.Recv(other.Inbound)
+					run.gotOther++
+					verifrt.Observe(uint64(run.gotOther) * 7919)
+				}
+			})
+		}
 		ms := util.NewMessageStream(run.conn, ofParser{seen: &run.parsed})
 		run.ms = ms
 		verifrt.NameChan(ms.Inbound, 1)
@@ -382,6 +432,13 @@ func newStreamExplorer(sc streamScenario, alphabet []streamFrame, outAlphabet []
 						}
 						run.submitted[pi] = append(run.submitted[pi], append([]byte{}, eb...))
 						verifrt.Send(ms.Outbound, prev)
+						continue
+					}
+					if kind < 0 {
+						// a message that cannot be encoded: nothing of it can reach the wire, everything
+						// submitted around it must
+						run.submitted[pi] = append(run.submitted[pi], nil)
+						verifrt.Send(ms.Outbound, util.Message(unencodable{}))
 						continue
 					}
 					m, err := bind.BuildMsg(outAlphabet[kind], bind.Hist{})
